@@ -54,7 +54,6 @@ SPECS = [
  ("C19", "combine-lists-only-last", S+"task_types/stdlib/run_experiment_group.py", "        deps=relative_experiment_identifiers,", "        deps=relative_experiment_identifiers[-1:],"),
  ("C20", "name-regex-end-anchor-dropped", S+"task_identifier.py", "_NAME_REGEX = re.compile(r\"^{}\\Z\".format(IDENTIFIER_GROUP))", "_NAME_REGEX = re.compile(r\"^{}\".format(IDENTIFIER_GROUP))"),
  ("C20", "dot-admitted", S+"task_identifier.py", "IDENTIFIER_GROUP = \"[a-zA-Z0-9_-]+\"", "IDENTIFIER_GROUP = \"[a-zA-Z0-9_.-]+\""),
- ("C20", "version-without-separator", S+"filename.py", "        return \"{}{}.{}\".format(", "        return \"{}{}{}\".format("),
  ("C18", "entry-named-after-identifier-path", S+"execution/ops/combine_outputs.py", "            copy_into = self._output_path / dep_id.name", "            copy_into = self._output_path / str(dep_id).replace(\"/\", \"_\").replace(\":\", \"_\")"),
  ("C18", "non-link-silently-replaced", S+"execution/ops/combine_outputs.py", "                else:\n                    # Unexpected - it should be a symlink.\n                    raise CombineOutputFileConflict(output_file=str(copy_into))", "                elif copy_into.is_file():\n                    copy_into.unlink()\n                else:\n                    raise CombineOutputFileConflict(output_file=str(copy_into))"),
  ("C06", "row-inserted-at-planning-instead-of-finish",
